@@ -886,6 +886,10 @@ def rs_dist_table(ctx, records, w, k):
     n = stats["rows"]
     ctx.executed += n
     ctx.e3_calls += n
+    if stats.get("gap_pattern_ok") is False and not any("gap_phase_draw_order" in str(d) for d in ctx.drift_notes):
+        ctx.drift += 1
+        ctx.drift_notes.append({"gap_phase_draw_order_differs_from_mechanism_spec": "the deterministic gap clause C05.gapSampling is not evaluated (the measured clause still is)"})
+        log("[P] reservoir: the code consumes the draws of an accepted gap-phase add in another order than the mechanism spec; C05.gapSampling not evaluated")
     if stats.get("deviation"):
         ctx.drift += 1
         ctx.drift_notes.append({"reservoir_random_script_consumed_differently_from_mechanism_spec": stats["deviation"], "k": k,
